@@ -481,7 +481,10 @@ func (s Segment) forRewrite() (*RewriteSegment, error) {
 	return dst, nil
 }
 
-func (src Segment) Rewrite(dropOffsets map[int64]struct{}, params index.Params, mversion message.Version, iversion index.Version) (*RewriteSegment, error) {
+// Rewrite copies the segment without the messages in dropOffsets into a set of temporary files.
+// If limit is not negative, only the log up to this position is read: when the segment is being written to,
+// what is after the position known to be complete might be a message that is still being appended.
+func (src Segment) Rewrite(dropOffsets map[int64]struct{}, params index.Params, mversion message.Version, iversion index.Version, limit int64) (*RewriteSegment, error) {
 	dst, err := src.forRewrite()
 	if err != nil {
 		return nil, err
@@ -504,7 +507,7 @@ func (src Segment) Rewrite(dropOffsets map[int64]struct{}, params index.Params, 
 	var srcPosition = srcLog.InitialPosition()
 	var indexTime int64
 	var dstIndex []index.Item
-	for {
+	for limit < 0 || srcPosition < limit {
 		msg, nextSrcPosition, err := srcLog.Read(srcPosition)
 		if err != nil {
 			if errors.Is(err, io.EOF) {
